@@ -43,7 +43,9 @@ var c04Calls = []mc.Call{
 	{"Tidy(0,x-ns)", func() string { return c04Tidy(0, "x-ns") }},
 	{"Tidy(3,B/op)", func() string { return c04Tidy(3, "B/op") }},
 	{"Tidy(3,nsec/op)", func() string { return c04Tidy(3, "nsec/op") }},
-	{"ClassOf", func() string { return fmt.Sprint(benchunit.ClassOf("MB/s"), benchunit.ClassOf("ns/op"), benchunit.ClassOf("x/B")) }},
+	{"ClassOf", func() string {
+		return fmt.Sprint(benchunit.ClassOf("MB/s"), benchunit.ClassOf("ns/op"), benchunit.ClassOf("x/B"))
+	}},
 	{"Reader(5 ns/op 3 MB/s)", func() string { return c04Read("BenchmarkX 1 5 ns/op 3 MB/s 7 B/op") }},
 	{"Reader(0 ns/op)", func() string { return c04Read("BenchmarkX 1 0 ns/op +Inf MB*ns") }},
 	{"Reader(Unit metadata)", func() string { return c04Read("Unit ns/op better=lower\nBenchmarkX 1 5 ns/op") }},
